@@ -256,12 +256,19 @@ def _ordered_alternatives(b):
         b.edge(ma, b.add({"type": "choose", "name": name_a, "parts": parts, "n": n, "start": st, "dur": d, "util": _util(b)}))
     b.ntask += 1
     name_b = f"t{b.ntask}"
-    mb = b.add({"type": "max", "name": f"{name_b}_max"})
     anchor = rng.choice(alts[1:])
-    for k in range(rng.randint(1, 2)):
+    if rng.random() < 0.45:
+        # the second child is a bare leaf: its start is a constant of the model, the first child's end is not
         b.options += 1
-        b.edge(mb, b.add({"type": "choose", "name": name_b, "parts": parts, "n": n, "start": anchor[0] + anchor[1] + g * rng.randint(0, 1) + g * k,
-                          "dur": g * rng.randint(1, 2), "util": _util(b)}))
+        nb = n if rng.random() < 0.5 else 1
+        mb = b.add({"type": "choose", "name": name_b, "parts": parts, "n": nb, "start": anchor[0] + anchor[1] + g * rng.randint(0, 1),
+                    "dur": g * rng.randint(1, 2), "util": _util(b)})
+    else:
+        mb = b.add({"type": "max", "name": f"{name_b}_max"})
+        for k in range(rng.randint(1, 2)):
+            b.options += 1
+            b.edge(mb, b.add({"type": "choose", "name": name_b, "parts": parts, "n": n, "start": anchor[0] + anchor[1] + g * rng.randint(0, 1) + g * k,
+                              "dur": g * rng.randint(1, 2), "util": _util(b)}))
     lt = b.add({"type": "lessthan", "name": f"lt{len(b.spec['nodes'])}"})
     b.edge(lt, ma)
     b.edge(lt, mb)
@@ -344,6 +351,8 @@ def gen_spec(seed_parts, cls="plain"):
         opts["p_other_strategy"] = 0.6
         kinds["max"] = 7
         opts["p_ordered_alternatives"] = 0.3
+    else:
+        opts["p_ordered_alternatives"] = 0.12  # the same directed shape without the passes: the ordering row alone must hold
     b = _B(rng, spec, opts)
     root = b.add({"type": "objective", "name": "obj"})
     seen = set()
